@@ -120,6 +120,16 @@ def judge(sc: dict, obs: dict) -> tuple[list[dict], str | None]:
     outs = {(c['client'], c['op']): c for c in obs.get('clients', [])}
     # bystander result fetched through submit/result
     from vlib.simnet import workloads as WL
+    # an ERROR of one of a client's own compilations (a raising body, an await
+    # of a cancelled future) is raised by whatever call of that client reads
+    # the connection next
+    own_msgs: dict[str, list[str]] = {}
+    for comp in scen.compilations(sc):
+        _, ex_ = WL.interpret(comp['tree'])
+        own_msgs.setdefault(comp['client'], []).extend(([ex_.raises] if ex_.raises else []) + ex_.may_raise)
+
+    def own_error(client: str, rec: dict) -> bool:
+        return any(m in rec.get('msg', '') for m in own_msgs.get(client, []))
     for comp in scen.compilations(sc):
         if comp['op'] == 'submit:b':
             rec = outs.get((comp['client'], 'result:b'))
@@ -128,14 +138,14 @@ def judge(sc: dict, obs: dict) -> tuple[list[dict], str | None]:
                 got = rec['value'].get('tree_result') if isinstance(rec['value'], dict) else rec['value']
                 if scen.norm(got) != scen.norm(val):
                     w.append({'kind': 'bystander:wrong_value', 'got': got, 'want': val})
-            elif rec and rec['outcome'] == 'raise':
+            elif rec and rec['outcome'] == 'raise' and not own_error(comp['client'], rec):
                 w.append({'kind': 'bystander:error', 'msg': rec.get('msg', '')[-300:], 'site': scen._err_site(rec.get('msg', ''))})
         if comp['op'] == 'submit:v':
             rec = outs.get((comp['client'], 'result:v'))
             if rec and rec['outcome'] == 'value':
                 w.append({'kind': 'cancel:result_returned_after_client_cancel', 'got': rec['value']})
             rc = outs.get((comp['client'], 'cancel:v'))
-            if rc and rc['outcome'] == 'raise':
+            if rc and rc['outcome'] == 'raise' and not own_error(comp['client'], rc):
                 w.append({'kind': 'cancel:client_cancel_raised', 'msg': rc.get('msg', '')[-300:], 'site': scen._err_site(rc.get('msg', ''))})
     # progress: a client parked at the 'never' barrier is the abrupt-loss victim
     for x in scen.check_progress(sc, obs):
